@@ -38,6 +38,8 @@ pub struct Profile {
     pub commit_after_init: (u64, u64),
     pub reorg_back: Vec<(i64, u64)>,
     pub signed_chaos: bool,
+    /// after a reorg: resubmit the orphaned transactions (same inscription ids)
+    pub p_resubmit: (u64, u64),
 }
 
 impl Default for Profile {
@@ -66,6 +68,7 @@ impl Default for Profile {
             commit_after_init: (1, 2),
             reorg_back: vec![(1, 6), (2, 4), (3, 3), (5, 2), (9, 3), (10, 5), (11, 3), (12, 1), (0, 1), (-1, 1)],
             signed_chaos: false,
+            p_resubmit: (1, 2),
         }
     }
 }
@@ -368,7 +371,10 @@ impl<'a> Gen<'a> {
         }
     }
     pub fn bad_op(&mut self) -> BadOp {
-        match self.rng.below(21) {
+        match self.rng.below(25) {
+            21 => BadOp::BothEncodingsHexBad,
+            22 => BadOp::BothEncodingsB64Bad,
+            23 | 24 => BadOp::FinaliseExistingHash,
             0 => BadOp::WrongTxIdx(1),
             1 => BadOp::WrongTxIdx(-1),
             2 => BadOp::HugeTxIdx,
@@ -464,6 +470,9 @@ impl<'a> Gen<'a> {
                 let ws: Vec<u64> = self.p.reorg_back.iter().map(|x| x.1).collect();
                 let back = self.p.reorg_back[self.rng.weighted(&ws)].0;
                 ops.push(Op::Reorg { back });
+                if self.chance(self.p.p_resubmit) {
+                    ops.push(Op::Resubmit { n: self.rng.range(1, 3) as u8, extra_first: self.rng.chance(1, 2) });
+                }
             }
         }
         Scenario { config, hash_seed, ops }
